@@ -18,8 +18,8 @@ PID = "C24"
 LEVEL = "proof"
 LEAN = ["SaVerif.Props.C24"]
 META = {
-    "text": "Lean theorem checkin_clean: for EVERY operation sequence (any interleaving of begin/begin_nested/statements/commit/rollback/handle ops/context managers/AUTOCOMMIT switch/invalidate/armed DBAPI faults at cursor, execute, commit and rollback/close/garbage collection/new checkouts/extra pooled connections) every DBAPI connection idle in the pool has no uncommitted work, no savepoints and the default isolation level, whenever reset_on_return is rollback or commit; handed_out_clean: therefore every checkout sees exactly the committed rows. Proved by an inductive invariant (well-formed transaction pointer + clean pool) over the transcribed Connection/pool model; the model is tied to engine/base.py + pool/base.py by a per-step differential run of multi-checkout histories on a real QueuePool over SQLite, and the property itself is checked at every checkout by a direct oracle, also on the other pool classes.",
-    "note": "After fix 387ee97 (Connection.close skip_reset only while the transaction is active) the invariant needs no 'no failed commit before close' guard; prefix_close_counterexample keeps the pre-fix close() as a definition and proves it breaks the invariant (F7, fixed). Modelled-not-verified: the DBAPI driver (sqlite3 in autocommit=False mode behind the harness proxy; AUTOCOMMIT switch mapped onto sqlite3's autocommit attribute), weakref/GC timing (gc.collect() in the harness), only the single-threaded use of QueuePool (queue discipline FIFO); other pool classes are checked by the oracle only. PostgreSQL/MariaDB not executed.",
+    "text": "Lean theorem checkin_clean: for EVERY operation sequence (any interleaving of begin/begin_nested/statements/commit/rollback/handle ops/context managers/execution_options calls in any number and order - AUTOCOMMIT, READ UNCOMMITTED, logging_token, both in one call, unrelated options - engine-level options/invalidate/armed DBAPI faults at cursor, execute, commit and rollback, also during the reset itself/close/garbage collection/new checkouts/extra pooled connections) every DBAPI connection idle in the pool has no uncommitted work, no savepoints, the default isolation level and no pending reset callbacks, whenever reset_on_return is rollback or commit; handed_out_clean: therefore every checkout sees exactly the committed rows in the default isolation level. Proved by an inductive invariant (well-formed handle table + clean pool + 'a non-default isolation level is always accompanied by a queued reset callback') over the transcribed Connection/pool model incl. the _ConnectionRecord.finalize_callback queue; the model is tied to engine/base.py + engine/default.py + pool/base.py by a per-step differential run of multi-checkout histories on a real QueuePool over SQLite, and the property itself is checked at every checkout by a direct oracle on all five pool classes, including a BaseException (KeyboardInterrupt) raised by the DBAPI during reset-on-return.",
+    "note": "After fix 387ee97 (Connection.close skip_reset only while the transaction is active) the invariant needs no 'no failed commit before close' guard; prefix_close_counterexample keeps the pre-fix close() as a definition and proves it breaks the invariant (F7, fixed). Modelled-not-verified: the DBAPI driver (sqlite3 in autocommit=False mode behind the harness proxy; AUTOCOMMIT switch mapped onto sqlite3's autocommit attribute), weakref/GC timing (gc.collect() in the harness), only the single-threaded use of QueuePool (queue discipline FIFO); other pool classes are checked by the oracle only (not by the Lean model); the BaseException-during-reset histories are modelled (fault kind kbi, incl. fix 49615f9: the invalidated record is checked in before the exception propagates). PostgreSQL/MariaDB not executed.",
     "technique": "Lean 4 inductive invariant over all histories of a hand-transcribed model + per-step differential correspondence on a real pool over SQLite",
     "design_ref": "DESIGN.md §3 C24",
 }
@@ -75,7 +75,8 @@ def classify(ops):
 def gen_sessions(rng, world, nsess, reset="rollback", queue=True, chars=False, kbi=False):
     k = 1
     for s in range(nsess):
-        auto = False
+        # under AUTOCOMMIT no savepoints are generated (SQLite would open a transaction for them)
+        auto = "auto" in world.engine_opts
         if chars and rng.random() < 0.45:
             # several execution_options() calls in varying order
             for _ in range(rng.randint(1, 3)):
@@ -130,8 +131,10 @@ def gen_sessions(rng, world, nsess, reset="rollback", queue=True, chars=False, k
                     # a cursor()/execute() fault that did not fire must not linger: the
                     # isolation-level reset at check-in also runs a statement
                     yield "D"
-            elif nh:
+            elif nh and not auto:
                 yield rng.choice("crxeof") + str(rng.randrange(nh))
+            elif nh:
+                yield rng.choice("crx") + str(rng.randrange(nh))
             else:
                 yield "q"
         if kbi and rng.random() < 0.35:
@@ -152,6 +155,8 @@ def gen_sessions(rng, world, nsess, reset="rollback", queue=True, chars=False, k
             yield "f0"
             yield "X"
         # else: nothing — the reference is simply dropped (N collects it)
+        if any(k == "k" for _, k in world.plan.armed):
+            yield "D"  # an interrupt that was armed but never reached must not fire in a later session
         yield "N"
     yield "q"
 
@@ -165,7 +170,7 @@ def run_history(rng, nsess, reset, poolclass="QueuePool", engine_opts="none", ch
         for tok in gen_sessions(rng, w, nsess, reset, queue=(poolclass == "QueuePool"), chars=chars, kbi=kbi):
             if w.gone and tok not in ("N", "D") and not tok.startswith("F"):
                 continue
-            if recs and recs[-1].startswith("KBI") and tok != "N":
+            if recs and recs[-1].startswith("KBI") and tok not in ("N", "D"):
                 # after an interrupt the program does not go on using the connection
                 continue
             ops.append(tok)
@@ -183,7 +188,7 @@ def replay_ops(ops, reset, poolclass="QueuePool", engine_opts="none"):
 
 def modelled(ops, engine_opts):
     """histories the Lean model covers (the rest is checked by the oracle only)"""
-    return engine_opts == "none" and not any(t in ("L", "U", "O", "LA") or (t[0] == "F" and t[2] == "k") for t in ops)
+    return True
 
 
 FIXED = [
@@ -238,19 +243,19 @@ def run(ctx, deep=False):
         if poolclass == "QueuePool" and modelled(ops, engine_opts):
             cases.append(case)
             impl_out.append("|".join(recs) if recs else "-")
-            reqs.append(lib_txn.driver_line(ops, reset))
+            reqs.append(lib_txn.driver_line(ops, reset, engine_opts=engine_opts))
 
     for s, reset in FIXED:
         ops = s.split(";")
         check(ops, replay_ops(ops, reset), reset)
-    n = 6000 if big else 900
+    n = 6000 if big else 450
     for i in range(n):
         reset = ctx.rng.choice(["rollback", "rollback", "commit", "none"])
         ops, recs = run_history(ctx.rng, ctx.rng.randint(1, 4), reset)
         check(ops, recs, reset)
         if i % 300 == 0:
             ctx.sample({"reset": reset, "ops": ";".join(ops), "last": recs[-1]})
-    n2 = 1200 if big else 200
+    n2 = 1200 if big else 100
     for i in range(n2):
         reset = ctx.rng.choice(["rollback", "commit"])
         pc = ctx.rng.choice(OTHER_POOLS)
@@ -258,7 +263,7 @@ def run(ctx, deep=False):
         check(ops, recs, reset, pc)
     # connection characteristics (several execution_options calls, engine- and connection-level)
     # and BaseException during reset-on-return, on every pool class: oracle only
-    n3 = 2400 if big else 300
+    n3 = 2400 if big else 180
     for i in range(n3):
         reset = ctx.rng.choice(["rollback", "rollback", "commit"])
         pc = ctx.rng.choice(["QueuePool", "QueuePool"] + OTHER_POOLS)
